@@ -33,6 +33,9 @@
      * each job pops trajectories[timestamp][device] (the CURRENT pose; the emptied timestamp stays), then:
        not a master -> nothing; rig already posed at that timestamp -> nothing; otherwise
        trajectories[timestamp, rig] = compose([rig_from_sensor, sensor_from_world]).
+   max_depth is an argument of both in-place functions (range(max_depth)): the fuel of remove_iter / recover_iter; the
+   correspondence passes it explicitly (case field c_fuel, 0..14) and PRigsExt shows the result does not depend on it
+   once it is at least the nesting depth.
    KeyError (a job whose entry has vanished) is an explicit outcome ([None] of the job functions); PRigs
    shows it cannot happen on well-formed dicts.
    rigs_remove / rigs_recover (253-267, 307-325) are deepcopy + the in-place function: the model is pure, so
@@ -411,6 +414,8 @@ Record case := {
   c_rigs : rigs pose;
   c_traj : traj pose;                    (* input of rigs_remove / rigs_remove_inplace *)
   c_masters : option (list string);
+  c_fuel : nat;                          (* the max_depth argument given to the two in-place functions (10 = the default;
+                                            the copying variants have no such argument and always run with 10) *)
   c_rec_in : option (traj pose);         (* input of rigs_recover(_inplace): an explicit trajectories, or the
                                             doubles rigs_remove returned, as exact rationals *)
   o_remove : obs; o_remove_ip : obs;
@@ -463,12 +468,12 @@ Definition check_case (c : case) : bool :=
   wf2b (c_rigs c) && wf2b (c_traj c) && all_poses nonzero (c_rigs c) && all_poses nonzero (c_traj c) &&
   o_pure c &&
   agree_copy (remove_x max_depth (c_rigs c) (deepcopy_traj (c_traj c))) (o_remove c) &&
-  agree_inplace (remove_x max_depth (c_rigs c) (c_traj c)) (o_remove_ip c) &&
+  agree_inplace (remove_x (c_fuel c) (c_rigs c) (c_traj c)) (o_remove_ip c) &&
   match c_rec_in c, o_recover c, o_recover_ip c with
   | Some U, Some oc, Some oi =>
       wf2b U && all_poses nonzero U &&
       agree_copy (recover_x max_depth (c_rigs c) (c_masters c) (deepcopy_traj U)) oc &&
-      agree_inplace (recover_x max_depth (c_rigs c) (c_masters c) U) oi
+      agree_inplace (recover_x (c_fuel c) (c_rigs c) (c_masters c) U) oi
   | None, None, None => true
   | _, _, _ => false
   end.
